@@ -1,4 +1,3 @@
-(* WIP *)
 (* C08 — Inbound QoS 2 messages are forwarded exactly once; every retransmission is answered by a
    PUBREC that does not signal failure.
    Statements only; proofs are [exact lemma] or vm_compute witnesses.
